@@ -186,6 +186,13 @@ var Small = Universe{
 	TSMax:    6,
 }
 
+// OddKinds are kinds outside 0..65535 that agree with a kind of the small universe modulo 2^16 or 2^32
+// (the decoders accept any int64; a comparison through a narrower type confuses them)
+var OddKinds = []int64{65536, 65537, 65541, -65535, -65536, 1 << 32, 1<<32 + 1, 75536, 95536}
+
+// LongTagNames start with a letter that is a tag name of the small universe
+var LongTagNames = []string{"title", "emoji", "proxy", "alt", "expiration", "ee"}
+
 func (u Universe) Event(r *Rand, idx int) JEvent {
 	e := JEvent{
 		ID:   Pick(r, u.IDs),
@@ -194,12 +201,18 @@ func (u Universe) Event(r *Rand, idx int) JEvent {
 		Kind: Pick(r, u.Kinds),
 		Tags: [][]string{},
 	}
+	if u.Extreme > 0 && r.Chance(u.Extreme) {
+		e.Kind = Pick(r, OddKinds)
+	}
 	if idx >= 0 {
 		e.ID = "id" + strconv.Itoa(idx)
 	}
 	nt := r.Intn(5)
 	for i := 0; i < nt; i++ {
 		t := []string{Pick(r, u.TagNames)}
+		if u.Extreme > 0 && r.Chance(2*u.Extreme) {
+			t[0] = Pick(r, LongTagNames)
+		}
 		switch r.Intn(6) {
 		case 0: // one-element tag
 		case 1:
@@ -244,6 +257,9 @@ func (u Universe) Filter(r *Rand, sel int) JFilter {
 			if r.Chance(45) {
 				ks = append(ks, k)
 			}
+		}
+		if u.Extreme > 0 && r.Chance(u.Extreme) {
+			ks = append(ks, Pick(r, OddKinds))
 		}
 		f.Kinds = &ks
 	}
